@@ -70,18 +70,6 @@ Proof.
   rewrite E at 2. symmetry. apply trim_app_ws. eapply forallb_sub; [apply ascii_ws_sub|exact H].
 Qed.
 
-Lemma drop_cr_decomp l : exists ws, l = drop_cr l ++ ws /\ forallb go_is_space ws = true.
-Proof.
-  unfold drop_cr. destruct (rev l) as [|c r] eqn:E.
-  - exists []. rewrite app_nil_r. auto.
-  - destruct (N.eqb_spec c CR) as [->|_].
-    + exists [CR]. split; [|reflexivity]. rewrite <- (rev_involutive l), E. cbn. reflexivity.
-    + exists []. rewrite app_nil_r. auto.
-Qed.
-
-Lemma trim_drop_cr l : trim_space (drop_cr l) = trim_space l.
-Proof. destruct (drop_cr_decomp l) as (ws & E & H). rewrite E at 2. symmetry. apply trim_app_ws, H. Qed.
-
 Lemma trim_cons_sp r : trim_space (SP :: r) = trim_space r.
 Proof. reflexivity. Qed.
 
@@ -158,33 +146,19 @@ Proof.
 Qed.
 
 Lemma fm_scan_render lines : Forall (fun x => ~ In NL x) lines ->
-  filter_map F (scan_lines (join_nl (match rev lines with
+  filter_map F (split_nl (join_nl (match rev lines with
                 | [] => lines
                 | last :: _ => if negb (is_empty last) then lines ++ [[]] else lines
                 end))) = filter_map F lines.
 Proof.
   intros H. destruct (rev lines) as [|last r] eqn:E.
   - assert (lines = []) by (rewrite <- (rev_involutive lines), E; reflexivity). subst. reflexivity.
-  - assert (EL : lines = rev r ++ [last]) by (rewrite <- (rev_involutive lines), E; reflexivity).
-    destruct last as [|c last]; cbn [is_empty negb].
-    + (* last line empty: lines = X ++ [[]] *)
-      unfold scan_lines. destruct (join_nl lines) eqn:J.
-      * (* join empty: all content empty *) rewrite EL, fm_app. cbn. rewrite F_nil, app_nil_r.
-        (* join_nl (rev r ++ [[]]) = [] implies rev r = [] *)
-        destruct (rev r) as [|x xs] eqn:R; [reflexivity|].
-        exfalso. rewrite EL in J. cbn in J. destruct (xs ++ [[]]) eqn:Q; [destruct xs; discriminate|].
-        destruct x; discriminate.
-      * rewrite <- J. rewrite split_join; [|rewrite EL; destruct (rev r); discriminate|exact H].
-        rewrite E. rewrite (fm_map_ext F drop_cr F) by (intros a; unfold F; rewrite trim_drop_cr; reflexivity).
-        rewrite EL, fm_app. cbn. rewrite F_nil, app_nil_r. reflexivity.
-    + unfold scan_lines. destruct (join_nl (lines ++ [[]])) eqn:J.
-      * exfalso. rewrite EL in J. rewrite <- app_assoc in J. cbn in J.
-        destruct (rev r) as [|x xs]; cbn in J; [discriminate|].
-        destruct (xs ++ [c :: last; []]) eqn:Q; [destruct xs; discriminate|]. destruct x; discriminate.
-      * rewrite <- J. rewrite split_join; [| destruct lines; discriminate |].
-        -- rewrite rev_app_distr. cbn. rewrite rev_involutive.
-           apply fm_map_ext. intros a; unfold F; rewrite trim_drop_cr; reflexivity.
-        -- apply Forall_app. split; [exact H|]. constructor; [intros []|constructor].
+  - assert (NE : lines <> []) by (intros ->; discriminate).
+    destruct (negb (is_empty last)).
+    + rewrite split_join; [| destruct lines; discriminate |].
+      * rewrite fm_app. cbn. rewrite F_nil, app_nil_r. reflexivity.
+      * apply Forall_app. split; [exact H|]. constructor; [intros []|constructor].
+    + rewrite split_join by assumption. reflexivity.
 Qed.
 
 (* ---------- per comment ---------- *)
